@@ -2708,6 +2708,15 @@ def stack_oracle(ops, outs):
             if r != exp: return 'symbol op %s: expected %s got %s (stack model)' % (o, exp, r)
     return None
 
+API_CORPUS = [
+    # D37: x.append(v) with x an improper list and v containing x panicked (RefCell double borrow while the
+    # error message was formatted); found by the thorough tier, fixed in d808301
+    'int:1:1 cons:9:2:2 append:2:1 cons:2:2:3 cons:3:2:3 deep:3:1 append:2:1',
+    'int:1:1 cons:1:1:2 cons:2:2:3 append:2:3',
+    'int:1:1 cons:1:1:2 cons:2:2:3 push:2:3',
+    'nil:1 int:5:2 cons:2:2:3 append:3:3 push:3:3 append:1:3 append:1:1',
+]
+
 def check_C20(tier, seed):
     import itertools
     res = Result('C20', tier, seed); res.pending = []
@@ -2722,6 +2731,8 @@ def check_C20(tier, seed):
     nex = len(seqs)
     for _ in range(tier_n(tier, 3000, 80000)):
         seqs.append([rng.choice(OPS + ['show:2', 'show:3', 'iter:2', 'eq:2:3', 'equal:2:3']) for _ in range(rng.choice([4, 6, 10, 20, 30]))])
+    # minimised failures of earlier runs: they run in every tier
+    seqs += [s.split() for s in API_CORPUS]
     per = 50
     def mk_cases(seqs):
         cases = []
